@@ -1018,14 +1018,22 @@ func (quietLogger) Fatalf(format string, args ...interface{}) {
 	panic(fmt.Sprintf("pebble fatal: "+format, args...))
 }
 
-func (w *world) onPanic(ev goroutinereg.PanicEvent) {
+func (w *world) onPanic(n *node, inc int64, ev goroutinereg.PanicEvent) {
 	msg := fmt.Sprintf("task %s: %v", ev.Task, ev.Recovered)
 	st := strings.Split(string(debug.Stack()), "\n")
 	if len(st) > 60 {
 		st = st[:60]
 	}
 	w.mu.Lock()
-	w.panics = append(w.panics, msg+"\n"+strings.Join(st, "\n"))
+	if !n.up.Load() || n.inc.Load() != inc {
+		// The incarnation is already dead: its storage refuses every call, and
+		// multiraft answers a failed Save by asking raft for the next Ready without
+		// Advance ("two accepted Ready structs"), which panics. A dead process
+		// cannot violate anything; only counted.
+		w.probes["panic.in_dead_incarnation"]++
+	} else {
+		w.panics = append(w.panics, msg+"\n"+strings.Join(st, "\n"))
+	}
 	w.mu.Unlock()
 	// The registry would re-panic and kill the whole worker process; end only
 	// this goroutine instead (its deferred clean-up has already run) and let the
@@ -1075,7 +1083,8 @@ func (w *world) startNode(n *node, first bool) error {
 			return fmt.Errorf("open raft log db of n%d: %w", n.id, err)
 		}
 	}
-	reg := goroutinereg.New(goroutinereg.WithPanicObserver(w.onPanic))
+	myInc := n.inc.Load()
+	reg := goroutinereg.New(goroutinereg.WithPanicObserver(func(ev goroutinereg.PanicEvent) { w.onPanic(n, myInc, ev) }))
 	rt, err := multiraft.New(multiraft.Options{NodeID: multiraft.NodeID(n.id), TickInterval: tickInterval, Workers: w.cfg.Workers,
 		Transport: &simTransport{w: w, n: n, inc: n.inc.Load()}, Raft: w.raftOptions(), Goroutines: reg})
 	if err != nil {
